@@ -1,3 +1,4 @@
+import OptunaVerif.Model.Nsga2
 /-
   C13 — every direction-dependent decision site of optuna's pruners, samplers and `best_trial`,
   as a small executable function with an explicit direction parameter (core Lean only).
@@ -340,64 +341,48 @@ def updateBest (d : Dir) (best : Option TV) (new : TV) : Option TV :=
 
 def bestTrial (d : Dir) (ts : List TV) : Option TV := ts.foldl (updateBest d) none
 
-/-! ## NSGA-II crowding-distance sort (raw values, no direction: this is where today's code is
-not symmetric, see `C13.crowding_order_not_symmetric`) -/
+/-! ## NSGA-II crowding-distance sort.  The crowding code reads the RAW `trial.values` (no direction).  The model is the
+one of `Model/Nsga2.lean` (`_calc_crowding_distance` + `_crowding_distance_sort`, tied bit for bit to the code by
+`verif/props/c15_nsga.py`), at its exact instance; here only the interface of the C13 site: individuals with rational
+objective values and the number of objectives.  Since the repair of finding F-C13-1 the final sort is by
+`(-distance, number)`: symmetric (`C13.crowding_order_symmetric`); the former `sort(key=distance); reverse()` is kept
+as `crowdingSortOld` for the negation `C13.crowding_old_order_not_symmetric`. -/
 
 structure Ind where
   number : Nat
   values : List Rat
 deriving DecidableEq, Repr
 
-def lookupDist (n : Nat) : List (Nat × Ext) → Ext
-  | [] => .fin 0
-  | (m, e) :: t => if m = n then e else lookupDist n t
+/-- the individual as the NSGA-II model sees it: exactly `nObj` objective values (`values[i]` for `i < nObj`) -/
+def Ind.toN (nObj : Nat) (x : Ind) : Nsga2.Ind XVal :=
+  { number := x.number, values := (List.range nObj).map (fun i => XVal.fin (x.values.getD i 0)) }
 
-def addDist (n : Nat) (e : Ext) : List (Nat × Ext) → List (Nat × Ext)
-  | [] => [(n, e)]
-  | (m, x) :: t => if m = n then (m, Ext.add x e) :: t else (m, x) :: addDist n e t
+/-- `_crowding_distance_sort` (after the repair): distance descending, ties by ascending trial number. -/
+def crowdingSort (pop : List Ind) (nObj : Nat) : List (Nsga2.Ind XVal) :=
+  Nsga2.crowdingSort Nsga2.xnum (pop.map (Ind.toN nObj))
 
-/-- contribution of one objective to position `j` of a population already sorted by it
-(`s` = the sorted values): boundary individuals get `inf`, inner ones `(next - prev) / width`
-(values are finite, so `vs[j+2] - vs[j]` is the plain difference and the `inf - inf` rule never
-fires). -/
-def gapAt (s : List Rat) (width : Rat) (j : Nat) : Ext :=
-  if j = 0 ∨ j + 1 = s.length then .pinf
-  else .fin ((s.getD (j + 1) 0 - s.getD (j - 1) 0) / width)
-
-def accumulate (pop : List Ind) (s : List Rat) (width : Rat) (acc : List (Nat × Ext)) : List (Nat × Ext) :=
-  (pop.zipIdx).foldl (fun acc p => addDist p.1.number (gapAt s width p.2) acc) acc
-
-/-- `_calc_crowding_distance`: returns the population in its final order (the code sorts it in
-place, once per objective) and the distances. -/
-def crowdingLoop : List Nat → List Ind → List (Nat × Ext) → List Ind × List (Nat × Ext)
-  | [], pop, acc => (pop, acc)
-  | i :: is, pop, acc =>
-    let pop' := sortBy (fun a b => leR (a.values.getD i 0) (b.values.getD i 0)) pop
-    let s := pop'.map (fun x => x.values.getD i 0)
-    let first := s.getD 0 0
-    let last := s.getD (s.length - 1) 0
-    if first = last then crowdingLoop is pop' acc
-    else
-      let w := last - first
-      let width := if w ≤ 0 then 1 else w
-      crowdingLoop is pop' (accumulate pop' s width acc)
-
-/-- `_crowding_distance_sort`: stable sort by distance, then `reverse()`. -/
-def crowdingSort (pop : List Ind) (nObj : Nat) : List Ind :=
-  let r := crowdingLoop (List.range nObj) pop []
-  (sortBy (fun a b => Ext.le (lookupDist a.number r.2) (lookupDist b.number r.2)) r.1).reverse
+/-- `_crowding_distance_sort` before the repair: stable sort by distance, then `reverse()`. -/
+def crowdingSortOld (pop : List Ind) (nObj : Nat) : List (Nsga2.Ind XVal) :=
+  Nsga2.crowdingSortOld Nsga2.xnum (pop.map (Ind.toN nObj))
 
 def flipInd (mask : List Bool) (x : Ind) : Ind := { x with values := flipVals mask x.values }
 
-/-! ## NSGA-III: ideal-point shift on raw values (`objective_matrix -= np.min(objective_matrix, axis=0)`,
-no direction: `C13.nsga3_shift_not_symmetric`) -/
+/-! ## NSGA-III: the matrix handed to the niching step.  `__call__` multiplies the (inf-filtered) objective matrix by
+the direction signs (`-1` for a maximised objective) and `_normalize_objective_values` subtracts the per-column
+minimum (`objective_matrix -= np.min(objective_matrix, axis=0)`): `C13.nsga3_shift_symmetric`.  (Before the repair of
+finding F-C13-2 the signs were missing: `nsga3ShiftRaw`, kept for the negation `C13.nsga3_raw_shift_not_symmetric`.) -/
 
 def colMin (rows : List (List Rat)) (j : Nat) : Rat :=
   match minL (rows.map (fun r => r.getD j 0)) with
   | some m => m
   | none => 0
 
-def nsga3Shift (rows : List (List Rat)) : List (List Rat) :=
+/-- the ideal-point shift alone (what the code did on raw values before the repair) -/
+def nsga3ShiftRaw (rows : List (List Rat)) : List (List Rat) :=
   rows.map (fun r => (r.zipIdx).map (fun p => p.1 - colMin rows p.2))
+
+/-- signs first (`* np.array([-1.0 if d == MAXIMIZE else 1.0 for d in study.directions])`), then the shift -/
+def nsga3Shift (dirs : List Dir) (rows : List (List Rat)) : List (List Rat) :=
+  nsga3ShiftRaw (lossMatrix dirs rows)
 
 end OptunaVerif.Direction
